@@ -3,11 +3,13 @@ From Pyro Require Export Model.Base Model.Varint Model.Dict Corr.Verdict.
 Open Scope string_scope.
 Open Scope list_scope.
 
-Inductive cop := CPut (name : bytes) | CReload | CProbe (key : bytes).
+Inductive cop := CPut (name : bytes) | CReload | CProbe (key : bytes)
+| CPuts (names : list bytes).   (* a batch of Puts observed as one step (big-dictionary stream) *)
 
 (* what the harness dumps after each operation *)
 Record sobs := {
   so_key : bytes;          (* CPut: the key Put returned (else []) *)
+  so_keys : list bytes;    (* CPuts: the keys returned, in order (else []) *)
   so_ok : bool;            (* CReload: FromBytes(Bytes()) succeeded (else true) *)
   so_dump : trie;          (* VerifDump after the operation *)
   so_gets : list gres;     (* Get of EVERY key issued so far, in issue order, after the operation *)
@@ -44,6 +46,10 @@ Fixpoint run (ops : list cop) (obs : list sobs) (t : trie) (issued : list (bytes
             let '(k, t') := d_put name t in
             (t', issued ++ [(so_key s, name)],
              [corr (beqb k (so_key s)) "d_put: key differs from Dict.Put"])
+        | CPuts names =>
+            let '(ks, t') := fold_left (fun acc n => let '(k, t1) := d_put n (snd acc) in (fst acc ++ [k], t1)) names ([], t) in
+            (t', issued ++ combine (so_keys s) names,
+             [corr (list_eqb beqb ks (so_keys s)) "d_put: a key of a batch differs from Dict.Put"])
         | CReload =>
             match d_deserialize (d_serialize t) with
             | Some t' => (t', issued, [spec (so_ok s) "FromBytes(Bytes()) failed"])
